@@ -121,7 +121,7 @@ func (e *evidence) write(p Property) error {
 	if err != nil {
 		return err
 	}
-	dir := filepath.Join(Root, "evidence")
+	dir := filepath.Join(OutRoot(), "evidence")
 	if err := os.MkdirAll(dir, 0o755); err != nil {
 		return err
 	}
